@@ -293,7 +293,9 @@ def r17_3(ctx):
     cv = repo.func(f"{FMT}:check_valid")
     ctx.analysed(viv.qual, cv.qual)
     vsrc = ast.unparse(viv.node)
-    csrc = ast.unparse(cv.node)
+    # the validator's source with explaining variables read through (`entered = int(s, base)`, `is_hex = ...`)
+    from .common import expand_locals
+    csrc = ast.unparse(cv.node) + " ## " + " ; ".join(expand_locals(cv.node, n, depth=d_) for n in ast.walk(cv.node) if isinstance(n, (ast.Compare, ast.Call)) for d_ in (1, 2, 4))
     table = [
         ("INT", "form: base-10 integer", "_is_base_n(value, 10)" in vsrc, "int(s, base)" in csrc and "except ValueError" in csrc),
         ("HEX", "form: base-16 integer", "_is_base_n(value, 16)" in vsrc, "int(s, base)" in csrc and "except ValueError" in csrc),
